@@ -24,7 +24,26 @@ def main(argv):
         print(data.get("replay", "(no stand-alone snippet; see file)"))
         return 0
     mod = importlib.import_module("props." + prop.lower())
-    return mod.run(tier, seed)
+    try:
+        return mod.run(tier, seed)
+    except Exception:   # noqa: the machinery itself broke on this tree
+        # a crash of the harness is not evidence that the property holds: report it as a
+        # violation without a failing input, with the traceback as the replay, never as a pass
+        import hashlib
+        import json
+        import traceback
+        import common
+        tb = traceback.format_exc()
+        os.makedirs(common.REPLAYS, exist_ok=True)
+        path = os.path.join(common.REPLAYS, "%s-crash-%s.json" % (
+            prop, hashlib.sha1(tb.encode()).hexdigest()[:12]))
+        with open(path, "w") as fh:
+            json.dump({"property": prop, "what": "the check of %s crashed before it could decide the property; "
+                       "the correspondence / oracles that no longer run are named in the traceback" % prop,
+                       "failing_input_found": False, "traceback": tb.splitlines()[-40:]}, fh, indent=1)
+        sys.stderr.write(tb)
+        print("VIOLATION property=%s replay=%s no-failing-input-found" % (prop, path))
+        return 1
 
 
 if __name__ == "__main__":
